@@ -320,6 +320,14 @@ Definition start (now jr jn : N) (s : st) : st * list output :=
   let s := set_active s true in
   if 0 <? pka s then sendKeepalive now jr jn s else (s, []).
 
+(* ipcSetPeer.handlePostConfig on a device that is up, for a peer created by
+   this set operation: peer.Start(); if pkaOn { peer.SendKeepalive() };
+   peer.SendStagedPackets()   (pkaOn: the interval went from 0 to non-zero) *)
+Definition configure (now jr jn : N) (s : st) : st * list output :=
+  let '(s, o1) := start now jr jn s in
+  let '(s, o2) := sendStagedPackets now jr jn s in
+  (s, o1 ++ o2).
+
 (* RoutineReadFromTUN: one read batch routed to this peer *)
 Definition tunRead (now jr jn : N) (ids : list N) (s : st) : st * list output :=
   if active s then
@@ -438,7 +446,8 @@ Inductive input :=
 | IFire (k : tid)             (* the runtime runs timer k's AfterFunc closure *)
 | IFail (i : input)           (* i happens while Bind.Send returns an error for every datagram *)
 | IShiftKeys (d : N)          (* harness hook VerifShiftKeypairAges: every keypair becomes d older *)
-| ISetAttempts (n : N).       (* harness hook VerifSetHandshakeAttempts: handshakeAttempts := n *)
+| ISetAttempts (n : N)        (* harness hook VerifSetHandshakeAttempts: handshakeAttempts := n *)
+| IConfigure.                 (* UAPI set creating the peer (with its persistent keepalive) on a device that is up *)
 
 (* An event: when it runs, what it is, and the two jitter draws (milliseconds). *)
 Record ev := { e_t : N; e_in : input; e_jr : N; e_jn : N }.
@@ -455,6 +464,7 @@ Fixpoint step_in (now jr jn : N) (i : input) (s : st) : st * list output :=
   | IFail i' => let '(s', o) := step_in now jr jn i' s in (s', map fail_of o)
   | IShiftKeys d => (shiftKeys d s, [])
   | ISetAttempts n => (set_attempts s n, [])
+  | IConfigure => configure now jr jn s
   end.
 
 Definition step (s : st) (e : ev) : st * list output :=
